@@ -95,3 +95,17 @@ Proof.
   - exact (proj1 (proj2 (proj2 fixed_reuse_example))).
 Qed.
 Print Assumptions C09_cache_effective.
+
+(* Non-vacuity of the hypotheses: a strictly increasing clock exists, and on it the model with the
+   current key answers the witness histories of the old key correctly (instances of C09_full,
+   re-checked here by evaluation). *)
+Example C09_clock_example : forall i j, i < j -> now0 i < now0 j.
+Proof. exact now0_strict. Qed.
+Example C09_full_on_the_old_witnesses :
+  model_outputs now0 K_fixed h_utime = spec_out now0 h_utime /\
+  model_outputs now0 K_fixed h_rename = spec_out now0 h_rename /\
+  model_outputs now0 K_fixed h_copy = spec_out now0 h_copy /\
+  model_outputs now0 K_fixed h_dir = spec_out now0 h_dir /\
+  model_outputs now0 K_fixed h_symlink = spec_out now0 h_symlink /\
+  model_outputs now0 K_fixed h_two_procs = spec_out now0 h_two_procs.
+Proof. vm_compute. repeat split. Qed.
